@@ -154,4 +154,39 @@ def lastExpiring (signers : List (Int × Int)) (nb na : Int) : Option (Int × In
   | [] => none
   | c :: r => some (r.foldl lastStep c)
 
+/-! ### `Verifier.Verify` (verifier.go): the decisions taken on a signed message's key id -/
+
+/-- what `Verifier.Verify` consumes -/
+structure VerifyIn where
+  /-- `signed.ExtractUnverifiedHeader` and the unmarshalling of the verification key id succeed -/
+  hdrOk : Bool
+  /-- the key id's subject key id is empty -/
+  skidEmpty : Bool
+  /-- ISD-AS in the key id (what the signer put there: `Signer.IA`) -/
+  ia : Nat
+  /-- `Verifier.BoundIA` (0 = unbound) -/
+  boundIA : Nat
+  engineNil : Bool
+  /-- `Engine.NotifyTRC` succeeds -/
+  notifyOk : Bool
+  /-- `Engine.GetChains` result (`none` = error); per chain the oracle "`signed.Verify` with the
+  chain's AS public key succeeds" -/
+  chains : Option (List Bool)
+  deriving Repr
+
+/-- `addr.IA.IsWildcard` -/
+def isWildcard (ia : Nat) : Bool := ia / 2 ^ 48 == 0 || ia % 2 ^ 48 == 0
+
+/-- `Verifier.Verify` (no cache) -/
+def verifyMsg (v : VerifyIn) : Bool :=
+  if !v.hdrOk then false else
+  if v.skidEmpty then false else
+  if v.boundIA != 0 && v.boundIA != v.ia then false else
+  if isWildcard v.ia then false else
+  if v.engineNil then false else
+  if !v.notifyOk then false else
+  match v.chains with
+  | none => false
+  | some cs => cs.any id
+
 end Scion.Signer
